@@ -292,6 +292,17 @@ func c12Steps(st *c12Stream) ([]float64, string) {
 	return steps, ""
 }
 
+// c12MaxExponent: largest exponent eps_b declared in QCD.
+func c12MaxExponent(st *c12Stream) int {
+	m := 0
+	for _, w := range st.Words {
+		if e := w >> 11; e > m {
+			m = e
+		}
+	}
+	return m
+}
+
 // c12StepOverflows: a full-scale coefficient divided by the smallest declared step, times 2^6 (T1 fractional bits),
 // reaches 2^31 (within 10%: filter overshoot).
 func c12StepOverflows(st *c12Stream) bool {
@@ -513,16 +524,16 @@ func c12One(c *hx.Ctx, g c12Cfg) {
 	if wi >= 0 {
 		cls := "c12-bound"
 		excess := worst
+		// relative gain error of the decoder's high-pass synthesis scaling (twoInvK97 = 1.625732422 instead of
+		// 2/K = 1.625786132: 3.3e-5 per high-pass stage, two stages for HH), times full scale, times the
+		// inverse-ICT multiplier of the channel
+		gainErr := 6.6e-5 * math.Ldexp(1, g.P) * mult[wi%g.Comps]
 		switch {
-		case g.Levels == 0:
-			// NumLevels = 0: the encoder skips quantisation but T1 drops the 6 fractional bit-planes and the
-			// decoder skips dequantisation: samples come back divided by 32 around mid-range
-			cls = "c12-zero-levels-scaled"
-		case c12StepOverflows(st):
-			// (coefficient / step) * 2^6 does not fit int32: quantizeSubbandFloat's int32(...) conversion overflows
+		case c12MaxExponent(st) >= 26:
+			// some declared step is finer than 2^(P-25): exponent >= 26, i.e. K_max = exponent+1 >= 27 magnitude
+			// bit-planes + 6 fractional bits exceed T1's 32-bit coefficients (and (full-scale/step)*64 reaches 2^31)
 			cls = "c12-int32-overflow-fine-step"
-		case g.P >= 15 && excess <= 6.0:
-			// P >= 15: reconstructed magnitudes lose 1..4 LSBs (more through the ICT) whatever the declared step
+		case g.P >= 14 && g.Levels >= 1 && excess <= gainErr:
 			cls = "c12-p15plus-lsb-loss"
 		}
 		c12Fail(c, hx.Failure{Class: cls, What: "a decoded sample is further from the source than the QCD step sizes allow", Input: in,
@@ -552,6 +563,15 @@ func c12Correspondence(c *hx.Ctx) {
 			q := jpeg2000.CalculateQuantizationParams(50, L, P)
 			c.Case(fmt.Sprintf("j2k-nbands %d", L), fmt.Sprintf("ok %d", len(q.EncodedSteps)))
 		}
+	}
+	// encodeQuantizationStep (unexported) through CalculateQuantizationParams: requested float64 step -> word
+	for k := 0; k < 300; k++ {
+		L, P, q := c.R.Intn(7), c.R.Pick([]int{8, 12, 16}), 1+c.R.Intn(100)
+		qp := jpeg2000.CalculateQuantizationParams(q, L, P)
+		b := c.R.Intn(len(qp.StepSizes))
+		fr, e := math.Frexp(qp.StepSizes[b]) // step = fr * 2^e, fr in [0.5,1)
+		m := uint64(math.Ldexp(fr, 53))
+		c.Case(fmt.Sprintf("j2k-encstep %d %d %d", m, e-53, P), fmt.Sprintf("ok %d", qp.EncodedSteps[b]))
 	}
 	// the QCD written into a real stream is the table CalculateQuantizationParams returns (same array)
 	for k := 0; k < 60; k++ {
